@@ -116,7 +116,7 @@ int main(int argc, char **argv) {
   v::yieldHook() = hook;
   std::string line;
   while (rc::next(line)) {
-    rc::watchdog(60);
+    rc::watchdog(240);
     mj::Value c = mj::parse(line);
     occa::device device({{"mode", "Serial"}});
     dev = &device;
@@ -168,7 +168,7 @@ int main(int argc, char **argv) {
       if (run) {
         if (opFinished) { note = "code finished operation " + std::to_string(oi) + " of " + w.name + " before model action " + act; stuck = true; break; }
         sem_post(&w.go);
-        if (!waitArrived(w, 10)) { note = "thread " + w.name + " did not reach the next yield point after " + act; stuck = true; break; }
+        if (!waitArrived(w, 30)) { note = "thread " + w.name + " did not reach the next yield point after " + act; stuck = true; break; }
       }
       if (last) {
         if (w.opsDone <= oi) { note = "model action " + act + " ends the operation but the code of " + w.name + " is still inside it (point " + std::to_string((int)w.atPoint) + ")"; stuck = true; break; }
